@@ -1,4 +1,4 @@
-package main
+package main_test
 
 // Shared "one bias step" context, C16 (preference reversal) and C17 (fatigue).
 
